@@ -186,7 +186,7 @@ def replay(wd, prop, rp, path):
     if rp["kind"] == "file-trace":
         binp = build_harness(wd)
         tf = os.path.join(wd, "f.ndjson")
-        p = subprocess.run([binp, "drive-file", str(rp["seed"]), "4", tf], stdout=subprocess.PIPE, stderr=subprocess.STDOUT, text=True)
+        p = subprocess.run([binp, "drive-file", str(rp["seed"]), "4", tf], stdout=subprocess.PIPE, stderr=subprocess.STDOUT, text=True, timeout=HARNESS_TIMEOUT)
         if p.returncode != 0:
             raise Broken(p.stdout[-1000:])
         ok, tot, rej = validate_traces(wd, "Trace_File", TRACE_FILE_CFG, tf, "rp")
